@@ -11,6 +11,7 @@ import TdVerif.Model.C07Table
 import TdVerif.Model.C07SetStr
 import TdVerif.Lemmas.C07Storage
 import TdVerif.Lemmas.C07Table
+import TdVerif.Lemmas.C07Gen
 
 namespace TdVerif.Props.C07
 open TdVerif.C07
@@ -450,6 +451,19 @@ theorem property_ops_modelled_counterexample :
     -- … and with the aliasing the implementation exhibits, the result leaf is NOT fresh (contrast `copy_fresh`)
     ((run exState0 (stepsOf .outOfPlace 0 ⟨[], [⟨"a", some "a", [1, 0], [2, 1], true⟩], []⟩)).objs.getD 1 []).map (·.2.sid) = [0] := by
   decide
+
+/-! ## 8b. obligations over what is regenerated from the source on every run -/
+
+/-- every public name of `TensorDict` found by reflection in the working tree has a row in the class table -/
+theorem api_covered_by_table : ∀ p ∈ Gen.C07.apiRows, (classTable.lookup p.2).isSome = true := gen_api_rows_exist
+
+/-- what the source itself says about an operation — its body calls a fused in-place / out-of-place
+`torch._foreach_*` kernel, it is decorated `@lock_blocked`, its docstring calls it the in-place version / a
+view / a shallow copy — is compatible with the class the table gives it -/
+theorem source_hints_agree_with_table : ∀ p ∈ Gen.C07.hints, hintOk p = true := gen_hints_agree
+
+/-- the functions the model transcribes still have the shape they were transcribed from -/
+theorem transcribed_sources_unchanged : Gen.C07.shapes = expectedShapes := gen_shapes_unchanged
 
 /-- only the in-place class ever writes to memory … -/
 theorem stepsOf_pure (c : OpClass) (td : Nat) (p : Payload) (hc : c ≠ .inplace) :
